@@ -127,6 +127,17 @@ def check_union(a, b):
             raise Violation(f"period_union output carries data {o.data!r}")
     if sum(e - s for s, e in got) != iv.measure(_ivs(a) + _ivs(b)):
         raise Violation("total duration != measure of covered time")
+    # what was handed out belongs to the caller (an annotating transform would write into it): the next call must be data-less again
+    for o in out:
+        o.data["$category"] = ["scribbled"]
+        o.data["$tags"] = ["x"]
+    with sut("period_union (again, after the first result was annotated)"):
+        out2 = period_union(iv.to_events(a, Event), iv.to_events(b, Event))
+    for o in out2:
+        if o.data != {}:
+            raise Violation(f"period_union output carries data {o.data!r} after an earlier result was annotated by its caller")
+    if [iv.from_event(o) for o in out2] != exp:
+        raise Violation(f"period_union(a={_ivs(a)}, b={_ivs(b)}) called a second time = {[iv.from_event(o) for o in out2]}; maximal intervals are {exp}")
 
 
 def run_case(case):
